@@ -332,6 +332,10 @@ func (e *Exec) evalGhostBuiltin(st *State, call *ast.CallExpr, name string) Term
 				return v
 			}
 		}
+		if len(e.frames) > 1 {
+			// evaluated at a call site of the function whose contract mentions its own call history
+			return e.Ctx.Fresh("called_"+sanitize(name), SBool)
+		}
 		e.unsupported(call.Pos(), "__called(%q): no such call in the function", name)
 		return False
 	case "__lastret":
